@@ -257,6 +257,8 @@ def discharge(tr, hyps, goal, stats, budget_s=30.0, quick_ms=3000, rules=None):
         stats.by_stage["is-hypothesis:unsat"] = stats.by_stage.get("is-hypothesis:unsat", 0) + 1
         return "unsat", None
     env = random_counterexample(hyps, goal)
+    if env is None:
+        env = float_counterexample(hyps, goal)
     if env is not None:
         # a concrete falsifying assignment found by evaluation (exact rational arithmetic): the caller replays it on the
         # float build before anything is reported; z3 is not needed for the `sat` direction here
@@ -279,6 +281,65 @@ def discharge(tr, hyps, goal, stats, budget_s=30.0, quick_ms=3000, rules=None):
         if r in ("unsat", "sat"):
             return r, m
     return "unknown", None
+
+
+def _holds(b, env, memo, slack):
+    """robust truth of a boolean term under float evaluation: inequalities and equalities are read with `slack` (positive = generous, negative = strict)"""
+    op = b.op
+    if op == "true":
+        return True
+    if op == "false":
+        return False
+    if op == "bvar":
+        return bool(env[b.args[0]])
+    if op == "not":
+        return not _holds(b.args[0], env, memo, -slack)
+    if op == "and":
+        return all(_holds(x, env, memo, slack) for x in b.args)
+    if op == "or":
+        return any(_holds(x, env, memo, slack) for x in b.args)
+    v = X.evaluate(b.args[0], env, memo)
+    if isinstance(v, complex):
+        v = v.real
+    if op == "le0":
+        return v <= slack
+    if op == "lt0":
+        return v < slack
+    if op == "eq0":
+        return abs(v) <= max(slack, 1e-13)
+    raise AssertionError(op)
+
+
+def float_counterexample(hyps, goal, tries=16):
+    """candidate counterexample by floating-point evaluation when algebraic / transcendental atoms (sqrt, exp, cos, ...) rule out exact sampling: every
+    hypothesis must hold with a margin and the goal must fail with a margin.  The caller replays the assignment on the float build before anything is
+    reported, so a spurious candidate ends as NOT-REPRODUCED, never as a violation."""
+    import random
+    vs = {}
+    seen = set()
+    for n in list(hyps) + [goal]:
+        X.variables(n, vs, seen)
+    if not vs or len(vs) > 400:
+        return None
+    rng = random.Random(4321)
+    for t in range(tries):
+        env = {}
+        for name, v in vs.items():
+            if isinstance(v, X.B):
+                env[name] = rng.random() < 0.5
+            elif v.sort == "I":
+                env[name] = rng.randint(-2, 3)
+            else:
+                env[name] = round(rng.uniform(0.2, 1.5) * rng.choice((1, 1, -1)), 3)
+        memo = {}
+        try:
+            if not all(_holds(h, env, memo, -1e-7 if h.op in ("le0", "lt0") else 1e-12) for h in hyps):
+                continue
+            if not _holds(goal, env, memo, 1e-5):
+                return env
+        except (ZeroDivisionError, KeyError, OverflowError, ValueError, TypeError):
+            continue
+    return None
 
 
 def random_counterexample(hyps, goal, tries=24):
